@@ -183,8 +183,6 @@ def work_two_starts(item: tuple) -> dict:
     feats = families.features(g)
     res: dict = {"fan": fan, "start": starts, "feats": feats, "viol": [], "words": 0, "members": 0, "pref_members": 0, "trees": 0, "max_adm": 0,
                  "budget_hits": 0, "nonmember_words": 0, "skipped_words": 0, "forest_caps": 0, "errors": {}, "ambiguous_words": 0}
-    if "nullable_under_star_plus" in feats:
-        return res
     tc = TreeChecker(g)
     counter = AdmissionCounter(ADMISSION_BUDGET)
     with counter:
